@@ -11,6 +11,7 @@ import (
 	"net"
 	"net/http"
 	"net/http/httptest"
+	"os"
 	"regexp"
 	"strconv"
 	"strings"
@@ -23,6 +24,7 @@ import (
 	"github.com/vicanso/pike/cache"
 	"github.com/vicanso/pike/config"
 	"github.com/vicanso/pike/location"
+	pikelog "github.com/vicanso/pike/log"
 	"github.com/vicanso/pike/server"
 	"github.com/vicanso/pike/store"
 	"github.com/vicanso/pike/upstream"
@@ -45,19 +47,21 @@ type Outcome struct {
 
 // ReqInfo a request in progress
 type ReqInfo struct {
-	Rid     int
-	Proc    string
-	Key     string // model key name
-	Disp    string
-	Method  string
-	Gid     int64
-	Outcome chan Outcome
-	out     Outcome
-	AgeNow  int64
-	HasAge  bool
-	DecNow  int64
-	Fetched int
+	Rid       int
+	Proc      string
+	Key       string // model key name
+	Disp      string
+	Method    string
+	Gid       int64
+	Outcome   chan Outcome
+	out       Outcome
+	AgeNow    int64
+	HasAge    bool
+	DecNow    int64
+	Fetched   int
 	lastLabel string
+	dead      bool
+	sproc     *sched.Proc
 }
 
 // DispCfg a dispatcher configuration
@@ -74,16 +78,18 @@ type World struct {
 	clock   int64
 	lastNow sync.Map // gid -> model time of the last clock read
 
-	mu      sync.Mutex
-	trace   []Event
-	ents    map[interface{}]int
-	disps   map[interface{}]string
-	reqGid  map[int64]*ReqInfo
-	reqs    map[int]*ReqInfo
-	purging map[int64]bool
-	nextRid int
-	nver    int
-	nextEnt int
+	mu        sync.Mutex
+	trace     []Event
+	ents      map[interface{}]int
+	disps     map[interface{}]string
+	reqGid    map[int64]*ReqInfo
+	reqs      map[int]*ReqInfo
+	purging   map[int64]bool
+	delFailed map[int64]bool
+	dead      map[int64]bool // goroutines of a killed incarnation: invisible
+	nextRid   int
+	nver      int
+	nextEnt   int
 
 	Stores   map[string]*MemStore
 	upSrv    *httptest.Server
@@ -101,7 +107,7 @@ var gatePoints = map[string]bool{
 	"lookup.lock": true, "get.lock": true, "get.recv": true, "get.woken": true, "get.read2": true,
 	"age.lock": true, "cab.lock": true, "cab.send": true, "cab.save": true,
 	"hfp.lock": true, "hfp.send": true, "hfp.save": true,
-	"purge.lock": true, "purge.delete": true, "req.end": true,
+	"purge.lock": true, "purge.fence": true, "purge.delete": true, "req.end": true,
 	"next": true, "upstream": true,
 }
 
@@ -112,19 +118,24 @@ var theWorld *World
 // New creates the world (one per process) and installs the hooks
 func New() *World {
 	w := &World{
-		S:        sched.New(IsGate),
-		Base:     1000000,
-		ents:     map[interface{}]int{},
-		disps:    map[interface{}]string{},
-		reqGid:   map[int64]*ReqInfo{},
-		reqs:     map[int]*ReqInfo{},
-		purging:  map[int64]bool{},
-		Stores:   map[string]*MemStore{},
-		handlers: map[string]http.Handler{},
-		keyName:  map[string]string{},
+		S:         sched.New(IsGate),
+		Base:      1000000,
+		ents:      map[interface{}]int{},
+		disps:     map[interface{}]string{},
+		reqGid:    map[int64]*ReqInfo{},
+		reqs:      map[int]*ReqInfo{},
+		purging:   map[int64]bool{},
+		delFailed: map[int64]bool{},
+		dead:      map[int64]bool{},
+		Stores:    map[string]*MemStore{},
+		handlers:  map[string]http.Handler{},
+		keyName:   map[string]string{},
 	}
 	w.clock = 1
 	theWorld = w
+	if os.Getenv("PIKE_VERIF_LOG") == "" {
+		pikelog.SetOutputPath("/dev/null")
+	}
 	cache.VerifInstall(&cache.VerifHooks{Now: w.now, Point: w.point})
 	w.upSrv = httptest.NewServer(http.HandlerFunc(w.upstreamHandler))
 	w.UpAddr = w.upSrv.URL
@@ -227,13 +238,42 @@ func (w *World) ResetStores() {
 
 // Kill in-process analogue of kill -9 + restart: procs abandoned, volatile state gone, stores stay
 func (w *World) Kill() {
-	w.S.Abandon()
+	w.mu.Lock()
+	for _, ri := range w.reqs {
+		ri.dead = true
+	}
+	w.mu.Unlock()
+	w.S.Abandon(w.markDead)
 	w.mu.Lock()
 	w.reqGid = map[int64]*ReqInfo{}
+	w.reqs = map[int]*ReqInfo{}
 	w.purging = map[int64]bool{}
+	w.ents = map[interface{}]int{} // the objects of the previous incarnation are gone (numbering goes on)
 	w.emitLocked(Event{"op": "Kill"})
 	w.mu.Unlock()
 	w.restartDispatchers()
+}
+
+// Kill0 abandons the procs without a Kill event (end of a behaviour with stuck requests)
+func (w *World) Kill0() {
+	w.mu.Lock()
+	for _, ri := range w.reqs {
+		ri.dead = true
+	}
+	w.mu.Unlock()
+	w.S.Abandon(w.markDead)
+	w.mu.Lock()
+	w.reqGid = map[int64]*ReqInfo{}
+	w.reqs = map[int]*ReqInfo{}
+	w.mu.Unlock()
+}
+
+func (w *World) markDead(gids []int64) {
+	w.mu.Lock()
+	for _, g := range gids {
+		w.dead[g] = true
+	}
+	w.mu.Unlock()
 }
 
 // the middleware chain of server.Start, without the listener
@@ -305,6 +345,9 @@ func (w *World) Do(proc, disp, method, host, uri string, hdr http.Header) *Resul
 	w.reqs[ri.Rid] = ri
 	w.reqGid[gid] = ri
 	w.mu.Unlock()
+	if proc != "" {
+		ri.sproc = w.S.Proc(proc)
+	}
 
 	req := httptest.NewRequest(method, uri, nil)
 	req.Host = host
@@ -322,6 +365,9 @@ func (w *World) Do(proc, disp, method, host, uri string, hdr http.Header) *Resul
 		}()
 		w.handlers[disp].ServeHTTP(rec, req)
 	}()
+	if ri.dead {
+		return res
+	}
 	w.finish(ri, rec.Code, rec.Header(), rec.Body.Bytes(), res)
 	return res
 }
@@ -412,6 +458,12 @@ func respVer(resp *cache.HTTPResponse) int {
 // the hook: called by pike at every named point, inside the critical section where there is one
 func (w *World) point(pt string, obj interface{}, args ...interface{}) {
 	gid := sched.Gid()
+	w.mu.Lock()
+	isDead := w.dead[gid]
+	w.mu.Unlock()
+	if isDead {
+		return
+	}
 	switch pt {
 	case "disp.new":
 		w.mu.Lock()
@@ -448,13 +500,17 @@ func (w *World) point(pt string, obj interface{}, args ...interface{}) {
 		st := args[0].(int)
 		wait := args[1].(bool)
 		now := w.last(gid)
+		ver := 0
+		if es, ok := cache.VerifEntry(obj); ok && statusName(st) == "hit" {
+			ver = respVer(es.Response)
+		}
 		w.mu.Lock()
 		if ri := w.reqGid[gid]; ri != nil {
 			ri.DecNow = now
 			if !wait {
 				ri.lastLabel = statusName(st)
 			}
-			w.emitLocked(Event{"op": "Decide", "r": ri.Rid, "label": statusName(st), "wait": wait, "now": now})
+			w.emitLocked(Event{"op": "Decide", "r": ri.Rid, "label": statusName(st), "wait": wait, "now": now, "v": ver})
 		}
 		w.mu.Unlock()
 	case "get.woken":
@@ -504,10 +560,19 @@ func (w *World) point(pt string, obj interface{}, args ...interface{}) {
 		w.mu.Lock()
 		w.emitLocked(Event{"op": "Removed", "d": w.disps[obj], "k": w.kname(k)})
 		w.mu.Unlock()
+	case "purge.deleted":
+		if len(args) > 2 && args[2] != nil {
+			if e, _ := args[2].(error); e != nil {
+				w.mu.Lock()
+				w.delFailed[gid] = true
+				w.mu.Unlock()
+			}
+		}
 	case "purge.done":
 		k := string(args[1].([]byte))
 		w.mu.Lock()
-		w.emitLocked(Event{"op": "Purged", "d": w.disps[obj], "k": w.kname(k)})
+		w.emitLocked(Event{"op": "Purged", "d": w.disps[obj], "k": w.kname(k), "ok": !w.delFailed[gid]})
+		delete(w.delFailed, gid)
 		delete(w.purging, gid)
 		w.mu.Unlock()
 	}
@@ -575,10 +640,16 @@ func (w *World) upstreamHandler(rw http.ResponseWriter, req *http.Request) {
 	_, _ = ioutil.ReadAll(req.Body)
 	var out Outcome
 	if ri.Proc != "" {
-		w.S.AuxGate(ri.Proc, "upstream")
+		w.S.AuxGate(ri.sproc, "upstream")
 		w.mu.Lock()
 		out = ri.out
+		dead := ri.dead
 		w.mu.Unlock()
+		if dead {
+			rw.Header().Set("Cache-Control", "no-cache")
+			rw.WriteHeader(200)
+			return
+		}
 	} else {
 		out = w.Policy(ri, req)
 		w.mu.Lock()
@@ -740,8 +811,18 @@ func Mangle(data []byte, class string) []byte {
 	return data
 }
 
+func (s *MemStore) isDead() bool {
+	gid := sched.Gid()
+	s.w.mu.Lock()
+	defer s.w.mu.Unlock()
+	return s.w.dead[gid]
+}
+
 func (s *MemStore) Get(key []byte) ([]byte, error) {
 	gid := sched.Gid()
+	if s.isDead() {
+		return nil, store.ErrNotFound
+	}
 	s.mu.Lock()
 	defer s.mu.Unlock()
 	k := string(key)
@@ -762,14 +843,21 @@ func (s *MemStore) Get(key []byte) ([]byte, error) {
 		ret = Mangle(data, res)
 	}
 	s.w.mu.Lock()
-	if ri := s.w.reqGid[gid]; ri != nil && !good {
-		s.w.emitLocked(Event{"op": "LoadBad", "r": ri.Rid, "class": res, "present": ok})
+	if ri := s.w.reqGid[gid]; ri != nil {
+		if good {
+			s.w.emitLocked(Event{"op": "Loaded", "r": ri.Rid})
+		} else {
+			s.w.emitLocked(Event{"op": "LoadBad", "r": ri.Rid, "class": res, "present": ok})
+		}
 	}
 	s.w.mu.Unlock()
 	return ret, err
 }
 
 func (s *MemStore) Set(key []byte, data []byte, ttl time.Duration) error {
+	if s.isDead() {
+		return errInjected
+	}
 	s.mu.Lock()
 	defer s.mu.Unlock()
 	k := string(key)
@@ -781,6 +869,9 @@ func (s *MemStore) Set(key []byte, data []byte, ttl time.Duration) error {
 }
 
 func (s *MemStore) Delete(key []byte) error {
+	if s.isDead() {
+		return errInjected
+	}
 	s.mu.Lock()
 	defer s.mu.Unlock()
 	k := string(key)
